@@ -80,6 +80,7 @@ func C13(c *Ctx) error {
 		spec{basePathVariable(n + 6), "base_path_variable"},
 		spec{foreignResponse(n + 7), "foreign_response"},
 		spec{streamingFirst(n + 8), "streaming_rpcs"},
+		spec{marshalConflict(n+9, 0), "marshaljson_conflict"}, spec{marshalConflict(n+9, 1), "marshaljson_conflict"}, spec{marshalConflict(n+9, 2), "marshaljson_conflict"},
 		spec{postQueryOnly(n + 2), "post_query_only"})
 	// whatever the plugins accept must build: the rule-breaking fragments of C12 (refused today) at
 	// every placement; a validator that stops refusing one of them must not let uncompilable code out
@@ -392,6 +393,41 @@ func streamingFirst(idx int) *ir.Request {
 	}
 	return &ir.Request{Files: []*ir.File{f}, Generate: []string{f.Name}}
 }
+
+// marshalConflict: a discriminated oneof next to a SECOND annotation that needs its own MarshalJSON, where the second
+// annotation sits on a field that is itself inside a oneof — a proto3 `optional` field (its synthetic oneof; `nullable`
+// is only legal there) or a variant of the discriminated oneof. Refused today (one MarshalJSON-generating feature per
+// message); whatever a plugin accepts of it must still build.
+func marshalConflict(idx, variant int) *ir.Request {
+	pkg := "mc.v1"
+	P := "." + pkg + "."
+	tr := true
+	f := &ir.File{Name: fmt.Sprintf("mc%d_%d/api.proto", idx, variant), Package: pkg, GoPackage: "example.com/gen/mc/v1;mcv1"}
+	ev := &ir.Message{Name: "Event",
+		Oneofs: []*ir.Oneof{{Name: "content", HasConfig: true, Discriminator: strp("type"), Flatten: variant == 1}},
+		Fields: []*ir.Field{
+			{Name: "id", Number: 1, Kind: "string"},
+			{Name: "text", Number: 2, Kind: "message", TypeName: P + "Text", Oneof: "content"},
+			{Name: "image", Number: 3, Kind: "message", TypeName: P + "Image", Oneof: "content"},
+		}}
+	switch variant {
+	case 0:
+		ev.Fields = append(ev.Fields, &ir.Field{Name: "nick", Number: 4, Kind: "string", Card: "optional", Ann: ir.Ann{Nullable: &tr}})
+	case 1:
+		ev.Fields = append(ev.Fields, &ir.Field{Name: "big", Number: 4, Kind: "int64", Card: "optional", Ann: ir.Ann{Int64Enc: "NUMBER"}})
+	default:
+		ev.Fields = append(ev.Fields, &ir.Field{Name: "raw", Number: 4, Kind: "bytes", Oneof: "content", Ann: ir.Ann{BytesEnc: "HEX"}})
+	}
+	f.Messages = []*ir.Message{
+		{Name: "Text", Fields: []*ir.Field{{Name: "body", Number: 1, Kind: "string"}}},
+		{Name: "Image", Fields: []*ir.Field{{Name: "url", Number: 1, Kind: "string"}}},
+		ev}
+	f.Services = []*ir.Service{{Name: "Events", BasePath: "/ev", Methods: []*ir.Method{
+		{Name: "Put", Input: P + "Event", Output: P + "Event", Config: &ir.HTTPConfig{Path: "/put", Method: "POST"}}}}}
+	return &ir.Request{Files: []*ir.File{f}, Generate: []string{f.Name}}
+}
+
+func strp(s string) *string { return &s }
 
 // foreignResponse: RPCs whose request or response message lives in ANOTHER Go package than the file being
 // generated — a shared models package imported by the service file, and a well-known type: every
